@@ -664,8 +664,12 @@ func (lv *Live) FreshHash(runtime bool) []byte {
 	return h
 }
 
-func (lv *Live) CouldModify() bool { return lv.T.BuildCouldModifyTarget() }
-func (lv *Live) Memoised() bool    { return len(lv.T.RuleHash) != 0 }
+// CouldModify: can the build change this target? The harness's own reading of what build_step.go does (it runs the post-build
+// function if there is one and adds the files found in the output directories if there are any), NOT BuildCouldModifyTarget().
+func (lv *Live) CouldModify() bool {
+	return lv.T.PostBuildFunction != nil || len(lv.T.OutputDirectories) > 0
+}
+func (lv *Live) Memoised() bool { return len(lv.T.RuleHash) != 0 }
 
 func strsL(ls []Label) []core.BuildLabel {
 	out := make([]core.BuildLabel, len(ls))
